@@ -7,6 +7,15 @@ from core import Corr, Violation, run_driver
 from extract import pyexpr
 
 ID = "C12"
+#: functions the hand-written model transcribes: their control skeleton (extract/shape.py) is regenerated into
+#: Gen/C12.lean and compared with the literal in Properties/C12.lean (`modelled_functions_have_the_transcribed_shape`)
+SHAPES = [
+    ("shapeDigitize2tree", "mlinsights/mltree/tree_digitize.py", "digitize2tree"),
+    ("shapeTreeLeaveIndex", "mlinsights/mltree/tree_structure.py", "tree_leave_index"),
+    ("shapeTreeNodeRange", "mlinsights/mltree/tree_structure.py", "tree_node_range"),
+    ("shapePredictLeaves", "mlinsights/mltree/tree_structure.py", "predict_leaves"),
+    ("shapeTreeNodeParents", "mlinsights/mltree/tree_structure.py", "tree_node_parents"),
+]
 SRC_DIG = "mlinsights/mltree/tree_digitize.py"
 SRC_STR = "mlinsights/mltree/tree_structure.py"
 LEAN_TARGETS = ["MlVerif.Gen.C12", "MlVerif.Model.TreeStruct", "MlVerif.Model.Digitize",
@@ -596,19 +605,22 @@ def correspond(ctx):
 
 # ------------------------------------------------------------------------------ search (oracle from the statement)
 
-def check_digitize(bins, xs):
+def check_digitize(bins, xs, bins_dtype="float64"):
     """digitize2tree(bins, right=True).predict(x) == numpy.digitize(x, bins, right=True) for every x.
+    `bins_dtype`: the container the bins come in ("every strictly monotonic bins array"): a NumPy dtype name, or "list".
     Returns [(key, what, input, observed, required)]."""
     import numpy
     from mlinsights.mltree import digitize2tree
     b = numpy.array(bins, dtype=numpy.float64)
+    given = list(bins) if bins_dtype == "list" else numpy.array(bins, dtype=numpy.dtype(bins_dtype))
     out = []
     try:
-        cl = digitize2tree(b, right=True)
+        cl = digitize2tree(given, right=True)
         pred = cl.predict(numpy.array(xs, dtype=numpy.float64).reshape((-1, 1)))
     except Exception as e:
         return [("digitize2tree:raises", "digitize2tree/predict raises %s on strictly monotone bins" % type(e).__name__,
-                 {"kind": "digitize", "bins": list(bins), "x": list(xs)}, "%s: %s" % (type(e).__name__, str(e)[:200]),
+                 {"kind": "digitize", "bins": list(bins), "x": list(xs), "bins_dtype": bins_dtype},
+                 "%s: %s" % (type(e).__name__, str(e)[:200]),
                  "a tree predicting numpy.digitize(x, bins, right=True)")]
     exp = numpy.digitize(numpy.array(xs, dtype=numpy.float64), b, right=True)
     # what the tree actually compares: float32(x) against its stored thresholds (the bins in the threshold dtype)
@@ -617,7 +629,7 @@ def check_digitize(bins, xs):
     exp32 = numpy.digitize(x32, stored, right=True)
     for x, p, e, e32 in zip(xs, pred, exp, exp32):
         if float(p) != float(e):
-            inp = {"kind": "digitize", "bins": list(bins), "x": [float(x)]}
+            inp = {"kind": "digitize", "bins": list(bins), "x": [float(x)], "bins_dtype": bins_dtype}
             if float(p) == float(e32):
                 out.append((KEY_F32,
                             "prediction differs from numpy.digitize because scikit-learn compares float32(x) with the edges",
@@ -739,6 +751,19 @@ def search(ctx, hints):
                                 % (int(t8.max_depth), true_depth(t8)))
     except Exception:
         pass
+    # integer edges in every integer container (signed, UNSIGNED, Python list), both directions
+    typed = []
+    for t in range(ctx.pick(40, 600)):
+        n = rng.randint(1, 12)
+        vals = sorted(rng.sample(range(0, 120), n))
+        if rng.random() < 0.5:
+            vals = vals[::-1]
+        dt = rng.choice(["uint8", "uint16", "uint32", "uint64", "int8", "int32", "int64", "list", "float32"])
+        typed.append((vals, [float(v) for v in query_values(vals)] + [rng.uniform(-3, 125) for _ in range(3)], dt))
+    for bins, xs, dt in typed:
+        evals += len(xs)
+        nontriv.add(("dig", tuple(bins), dt))
+        found += check_digitize(bins, xs, dt)
     for bins, xs in cases:
         bad = check_digitize(bins, xs)
         evals += len(xs)
@@ -776,7 +801,7 @@ def replay(ctx, item):
     ctx.shadow(need_cython=True)
     inp = item["input"]
     if inp.get("kind") == "digitize":
-        bad = check_digitize(inp["bins"], inp["x"])
+        bad = check_digitize(inp["bins"], inp["x"], inp.get("bins_dtype", "float64"))
     else:
         bad = check_tree(inp["case"], inp["points"])
     best = {}
